@@ -156,7 +156,10 @@ pub fn c13(d: &Digest, out: &mut Vec<Violation>) {
         .out
         .blocked
         .iter()
-        .map(|b| format!("t{}({}) on {:?}", b.tid, b.name.clone().unwrap_or_default(), BlockOn::from(b.obj)))
+        .map(|b| match b.holder {
+            Some(h) => format!("t{}({}) on {:?} held by t{h}", b.tid, b.name.clone().unwrap_or_default(), BlockOn::from(b.obj)),
+            None => format!("t{}({}) on {:?}", b.tid, b.name.clone().unwrap_or_default(), BlockOn::from(b.obj)),
+        })
         .collect();
     // signatures of the listed findings
     let first_shutdown = d.stores.iter().filter_map(|s| s.first_shutdown_inv).min();
@@ -183,6 +186,42 @@ pub fn c13(d: &Digest, out: &mut Vec<Violation>) {
                         return;
                     }
                 }
+            }
+        }
+    }
+    // F8: shutdown releases an iterator (blocking Exit send on its full queue) while holding the
+    // subscriber list, and that iterator's own consumer thread is inside a call that needs the list
+    if first_shutdown.is_some() {
+        for sd in &d.stores {
+            let Some(rt) = sd.rtid else { continue };
+            let Some(rb) = d.run.out.blocked.iter().find(|b| b.tid == rt) else { continue };
+            let BlockOn::ChanSend(ch) = BlockOn::from(rb.obj) else { continue };
+            let Some((it, _)) = d.iter_chan.iter().find(|(_, c)| **c == ch) else { continue };
+            // the thread that made the latest next() call on that iterator
+            let consumer = d.ev.iter().rev().find_map(|e| match &e.k {
+                K::NextB { it: i } if i == it => Some(e.tid),
+                _ => None,
+            });
+            let stuck_consumer = d.run.out.blocked.iter().any(|b| Some(b.tid) == consumer && matches!(BlockOn::from(b.obj), BlockOn::Mutex) && b.holder == Some(rt));
+            // the reducer must be past its last pipeline: nothing reducer-side happened after
+            // its final take from the dispatch queue (the shutdown marker)
+            let last_take = d.ev.iter().rposition(|e| e.tid == rt && matches!(&e.k, K::ChRecv { chan, .. } if Some(*chan) == sd.dchan));
+            let in_pipeline = match last_take {
+                Some(t) => d.ev[t..].iter().any(|e| {
+                    e.tid == rt
+                        && matches!(&e.k, K::RedB { .. } | K::RedE { .. } | K::MwB { .. } | K::MwE { .. } | K::NotB { .. } | K::NotE { .. } | K::SelCb { .. })
+                }),
+                None => true,
+            };
+            // ... or it already delivered this action to that iterator (one send per action):
+            // a second send can only be the shutdown marker (the dispatch queue may have ended
+            // by disconnection, without a marker being taken)
+            let sends_since = d.ev[last_take.unwrap_or(0)..].iter().filter(|e| e.tid == rt && matches!(&e.k, K::ChSend { chan, .. } if *chan == ch)).count();
+            // ... or the last action it processed does not notify at all (Keep / suppressed)
+            let last_silent = sd.insts.last().map(|i| d.notify_exp(i) == NotifyExp::MustNot).unwrap_or(false);
+            if stuck_consumer && (!in_pipeline || sends_since >= 1 || last_silent) {
+                vk(out, "C13", "deadlock", format!("shutdown holds the subscriber list while waiting for an iterator whose consumer needs the list: {}", blocked.join("; ")), "F8");
+                return;
             }
         }
     }
